@@ -51,6 +51,7 @@ bool CodedInputStream::SkipFallback(int count, int original_buffer_size) {
   return false;
 }
 bool CodedInputStream::GetDirectBufferPointer(const void** data, int* size) {
+  if (buffer_ == buffer_end_) return false;        // BufferSize() == 0 && !Refresh(): a flat array (or its limit) is exhausted
   *data = buffer_; *size = (int)(buffer_end_ - buffer_);
   return true;
 }
